@@ -223,6 +223,41 @@ func loopCases(thorough bool) []Case {
 	return out
 }
 
+func subPre(r, pre string) Op { return Op{Op: "sub", Reader: r, Pre: pre} }
+
+// preCancelledCases: Subscribe with a context that has ALREADY ended (or is cancelled concurrently
+// with the call), in every position relative to other subscribers, Batch calls, a delivery in
+// progress and Close: its channel must be closed (the forwarder's exit path is the only place that
+// closes it), the others must be served as usual.
+func preCancelledCases() []Case {
+	var out []Case
+	for _, pre := range []string{"done", "race"} {
+		for _, rd := range []string{"prompt", "manual"} {
+			tag := pre + "-" + rd
+			// alone; before / after Batch calls; then Close or not
+			out = append(out, cs("precancelled", tag+"-alone", subPre(rd, pre), batch(0), adv(10), op("settle")))
+			out = append(out, cs("precancelled", tag+"-alone-close", subPre(rd, pre), batch(0), adv(10), closeN(1)))
+			out = append(out, cs("precancelled", tag+"-after-batch", sub("prompt"), batch(0), subPre(rd, pre), adv(10), batch(1), adv(10)))
+			out = append(out, cs("precancelled", tag+"-after-batch-close", sub("prompt"), batch(0), subPre(rd, pre), adv(10), closeN(1)))
+			// first / middle / last among live subscribers
+			out = append(out, cs("precancelled", tag+"-first", subPre(rd, pre), sub("prompt"), sub("manual"), rounds(-1, 3), read(2, 3), closeN(1)))
+			out = append(out, cs("precancelled", tag+"-middle", sub("prompt"), subPre(rd, pre), sub("prompt"), rounds(-1, 3), closeN(2)))
+			out = append(out, cs("precancelled", tag+"-last", sub("prompt"), sub("manual"), subPre(rd, pre), rounds(-1, 3), read(1, 3)))
+			// two of them
+			out = append(out, cs("precancelled", tag+"-two", subPre(rd, pre), sub("prompt"), subPre("prompt", pre), rounds(-1, 2), closeN(1)))
+			// Subscribe while a delivery holds the lock (it waits), then released
+			out = append(out, cs("precancelled", tag+"-while-fanout-held", sub("prompt"), sub("prompt"), batch(0), parksend(1), adv(10),
+				subPre(rd, pre), op("release"), batch(1), adv(10), closeN(1)))
+			// its forwarder held at the exit point while a delivery passes
+			out = append(out, cs("precancelled", tag+"-exit-held", sub("prompt"), parkexit(1), subPre(rd, pre), batch(0), adv(10),
+				op("release"), batch(1), adv(10)))
+			// overlapping Close
+			out = append(out, cs("precancelled", tag+"-then-close-at-once", sub("prompt"), batch(0), subPre(rd, pre), closeN(2), adv(10)))
+		}
+	}
+	return out
+}
+
 // randomCase: a short history over keys {0,1,2} with 1-3 subscribers.
 func randomCase(r *lib.Rand) Case {
 	n := r.Range(6, 18)
@@ -234,7 +269,14 @@ func randomCase(r *lib.Rand) Case {
 		if r.Intn(3) == 0 {
 			k = "manual"
 		}
-		ops = append(ops, sub(k))
+		switch {
+		case nsubs > 0 && r.Intn(6) == 0:
+			ops = append(ops, subPre(k, "done"))
+		case nsubs > 0 && r.Intn(10) == 0:
+			ops = append(ops, subPre(k, "race"))
+		default:
+			ops = append(ops, sub(k))
+		}
 		readers = append(readers, k)
 		nsubs++
 	}
